@@ -6,6 +6,7 @@
 #include <tlx/thread_pool.hpp>
 #include <fstream>
 #include <memory>
+#include <stdexcept>
 #include <sys/wait.h>
 using namespace vf;
 
@@ -76,7 +77,8 @@ static void child(const std::string& line, const char* outpath) {
     auto res = vsched::run([&] {
         id0 = vsched::Runtime::new_object_id() + 1;
         vsched::set_guided_load_filter([&](int objid) { return objid == id0 + 3; });     // busy_
-        tlx::ThreadPool* pool = new tlx::ThreadPool(P);     // raw pointer: jobs may still use the pool while it is being destroyed
+        // raw pointer: jobs may still use the pool while it is being destroyed.  Every other scenario gives the pool a thread initializer.
+        tlx::ThreadPool* pool = (cfg.seed & 2) ? new tlx::ThreadPool(P, [](size_t) {}) : new tlx::ThreadPool(P);
         std::function<void(int)> job_body;
         auto enqueue = [&](int j) {
             ev(E("enq_call", vsched::self()) + ",\"j\":" + std::to_string(j) + "}");
@@ -89,6 +91,7 @@ static void child(const std::string& line, const char* outpath) {
             for (int c : children[j]) enqueue(c);
             for (int x : term) if (x == j) terminate();
             ev(E("finish", vsched::self()) + ",\"j\":" + std::to_string(j) + "}");
+            if ((cfg.seed & 1) && j % 2 == 1) throw std::runtime_error("job leaves through an exception");    // the worker must treat it as finished
         };
         auto client = [&](int c) {
             for (const Call& x : progs[c]) {
